@@ -1714,6 +1714,10 @@ fn run_batch(r: &mut Report, collector: &Collector, root: &str, seed: u64, secti
         if me.has_duplicates() {
             cx.r.observe("events-with-duplicate-keys", 1);
         }
+        if let Some(w) = me.directed.as_deref().and_then(|d| d.strip_prefix("wide:")) {
+            cx.r.observe(&format!("rt:wide-events:{}", w), 1);
+            cx.r.observe("rt:wide-events:properties", me.effective().count() as u64);
+        }
         if !me.ambient.is_empty() {
             cx.r.observe(&format!("rt:ambient-depth:{}", me.ambient.len()), 1);
             let shadowed = me.ambient.iter().flatten().filter(|p| me.props.iter().any(|q| q.key == p.key)).count();
